@@ -347,16 +347,55 @@ let run (op : string) (a : string list) : string =
        | _, "x" -> run_one xf op g
        | _ -> "BAD-FIELD")
 
+let process_line (line : string) : string option =
+  let line = String.trim line in
+  if line = "" || line.[0] = '#' then None else
+  match List.filter (fun s -> s <> "") (String.split_on_char ' ' line) with
+  | id :: op :: args ->
+      let res = try run op args with e -> "ORACLE-EXCEPTION " ^ Printexc.to_string e in
+      Some (id ^ " " ^ res)
+  | _ -> None
+
+let read_lines (ic : in_channel) : string list =
+  let acc = ref [] in
+  (try while true do acc := input_line ic :: !acc done with End_of_file -> ());
+  List.rev !acc
+
+let sequential (lines : string list) : unit =
+  List.iter (fun l -> match process_line l with Some r -> print_string r; print_newline () | None -> ()) lines
+
+(* The extracted field arithmetic costs a few microseconds per coefficient step and the model repeats all the work the code
+   does (the degree-2000 divisions and NTT paths cost seconds each), so the case file is split round-robin over worker
+   processes: copies of this executable started through the shell (plain Stdlib, no Unix library), as ocaml/c08.ml does.
+   The result lines carry their case ids, so their order does not matter.  C09_ORACLE_JOBS=1 disables it. *)
 let () =
-  try
-    while true do
-      let line = String.trim (input_line stdin) in
-      if line <> "" && line.[0] <> '#' then begin
-        match List.filter (fun s -> s <> "") (String.split_on_char ' ' line) with
-        | id :: op :: args ->
-            let res = try run op args with e -> "ORACLE-EXCEPTION " ^ Printexc.to_string e in
-            print_string id; print_char ' '; print_string res; print_newline ()
-        | _ -> ()
-      end
-    done
-  with End_of_file -> ()
+  if Array.length Sys.argv >= 3 && Sys.argv.(1) = "--worker" then begin
+    let ic = open_in Sys.argv.(2) in
+    sequential (read_lines ic); close_in ic
+  end else begin
+    let lines = read_lines stdin in
+    let jobs = try int_of_string (Sys.getenv "C09_ORACLE_JOBS") with _ -> 8 in
+    let n = List.length lines in
+    if jobs <= 1 || n < 16 then sequential lines
+    else begin
+      let dir = Filename.temp_file "c09oracle" ".d" in
+      Sys.remove dir; Sys.mkdir dir 0o700;
+      let ocs = Array.init jobs (fun k -> open_out (Printf.sprintf "%s/in%d" dir k)) in
+      List.iteri (fun i l -> output_string ocs.(i mod jobs) l; output_char ocs.(i mod jobs) '\n') lines;
+      Array.iter close_out ocs;
+      let q = Filename.quote in
+      let cmd = String.concat " " (List.init jobs (fun k ->
+          Printf.sprintf "(%s --worker %s > %s) &" (q Sys.executable_name) (q (Printf.sprintf "%s/in%d" dir k)) (q (Printf.sprintf "%s/out%d" dir k))))
+                ^ " wait" in
+      let _ = Sys.command cmd in
+      for k = 0 to jobs - 1 do
+        let f = Printf.sprintf "%s/out%d" dir k in
+        (if Sys.file_exists f then begin
+            let ic = open_in f in
+            List.iter (fun l -> print_string l; print_newline ()) (read_lines ic); close_in ic; Sys.remove f
+          end);
+        Sys.remove (Printf.sprintf "%s/in%d" dir k)
+      done;
+      (try Sys.rmdir dir with _ -> ())
+    end
+  end
